@@ -25,6 +25,7 @@ np.expand_dims(x, 1), check_series(x, enforce_univariate=False) are x;
 (horizon, outputs), multioutput validated).
 """
 import ast
+import os
 
 
 class Unsupported(Exception):
@@ -94,6 +95,8 @@ def mk(t):
             return b
         if a == b:
             return a
+        if c[0] == "NOT":           # normal form: no negated switch
+            return mk(("ITE", c[1], b, a))
         return t
     if h == "NOT":
         x = t[1]
@@ -324,6 +327,21 @@ def show(t, depth=0):
 # ------------------------------------------------------------------------------------------------
 # the evaluator
 
+# imported names the readers know, by what they ARE (module, original name), whatever local alias
+# the module gives them
+CANON = {
+    ("scipy.stats", "gmean"): "gmean",
+    ("sklearn.utils.stats", "_weighted_percentile"): "_weighted_percentile",
+    ("sklearn.utils.validation", "check_consistent_length"): "check_consistent_length",
+    ("sklearn.utils", "check_consistent_length"): "check_consistent_length",
+    ("sklearn.metrics._regression", "_check_reg_targets"): "_check_reg_targets",
+    ("sklearn.metrics", "mean_absolute_error"): "_mean_absolute_error",
+    ("sklearn.metrics", "mean_squared_error"): "_mean_squared_error",
+    ("sklearn.metrics", "median_absolute_error"): "_median_absolute_error",
+    ("sktime.utils.validation.series", "check_series"): "check_series",
+    ("sktime.utils.validation.series", "check_time_index"): "check_time_index",
+}
+MODALIAS = {"numpy": "np", "pandas": "pd"}
 BUILTINS = ("isinstance", "str", "int", "float", "bool", "super", "len", "dict", "tuple")
 BINOPS = {ast.Add: "+", ast.Sub: "-", ast.Mult: "*", ast.Div: "/", ast.Pow: "**"}
 MAX_DEPTH = 8
@@ -332,9 +350,20 @@ MAX_DEPTH = 8
 class Module:
     """module-level facts: functions, classes, imported names, constants."""
 
-    def __init__(self, tree):
-        self.tree = tree
+    CACHE = {}
+
+    @classmethod
+    def load(cls, repo, rel):
+        key = (os.path.realpath(repo), rel)
+        if key not in cls.CACHE:
+            with open(os.path.join(repo, rel)) as f:
+                cls.CACHE[key] = cls(ast.parse(f.read()), repo, rel)
+        return cls.CACHE[key]
+
+    def __init__(self, tree, repo=None, rel=None):
+        self.tree, self.repo, self.rel = tree, repo, rel
         self.funcs, self.classes, self.imports, self.consts = {}, {}, {}, {}
+        self.symbols = set()            # constants kept as symbols N(name) (none: by value)
         bound = {}
         for n in tree.body:
             if isinstance(n, ast.FunctionDef):
@@ -348,8 +377,13 @@ class Module:
                     self.imports[a.asname or a.name] = (a.name, None)
                     bound[a.asname or a.name] = bound.get(a.asname or a.name, 0) + 1
             elif isinstance(n, ast.ImportFrom):
+                modname = n.module
+                if n.level:         # relative import: make it absolute
+                    _need(rel is not None, "relative import", n)
+                    pkg = rel[:-3].split("/")[:-n.level]
+                    modname = ".".join(pkg + ([n.module] if n.module else []))
                 for a in n.names:
-                    self.imports[a.asname or a.name] = (n.module, a.name)
+                    self.imports[a.asname or a.name] = (modname, a.name)
                     bound[a.asname or a.name] = bound.get(a.asname or a.name, 0) + 1
             elif isinstance(n, ast.Assign):
                 for t in n.targets:
@@ -358,6 +392,24 @@ class Module:
                         bound[t.id] = bound.get(t.id, 0) + 1
         dup = sorted(k for k, v in bound.items() if v > 1)
         _need(not dup, "names bound more than once at module level: %s" % dup)
+
+    def resolve(self, name, depth=0):
+        """the (module, FunctionDef) a module-level name denotes, following imports from modules of
+        the same repository; None if it is not such a function."""
+        if name in self.funcs:
+            return self, self.funcs[name]
+        imp = self.imports.get(name)
+        if imp is None or imp[1] is None or self.repo is None or depth > 4 or imp in CANON:
+            return None
+        # only helpers that live in the same sub-package are part of the translated code
+        pkg = ".".join(self.rel[:-3].split("/")[:2])
+        if not (imp[0] == pkg or imp[0].startswith(pkg + ".")):
+            return None
+        base = imp[0].replace(".", "/")
+        for rel in (base + ".py", base + "/__init__.py"):
+            if os.path.exists(os.path.join(self.repo, rel)):
+                return Module.load(self.repo, rel).resolve(imp[1], depth + 1)
+        return None
 
     def require_imports(self, want):
         """want: local name -> (module, original name or None)."""
@@ -382,13 +434,16 @@ def strip_doc(body):
 
 
 class Ev:
-    def __init__(self, module, inline=(), opaque=(), cls=None, mro=None):
+    def __init__(self, module, opaque=(), cls=None, mro=None):
         self.m = module
-        self.inline = set(inline)       # module-level functions whose calls are inlined
-        self.opaque = set(opaque)       # module-level functions kept as calls, keywords normalised
+        # every function of the repository reached by a call is inlined (names and places of
+        # private helpers are not semantic), except the ones named here: they stay calls, with
+        # their arguments normalised to keywords through the signature
+        self.opaque = set(opaque)
         self.cls = cls                  # class whose method is being evaluated (for self.* / super)
         self.mro = mro or []
         self.depth = 0
+        self.resolving = set()          # module-level constants being evaluated
         self.cls_owner = None           # class whose method body is running (for super())
         self.store = None               # attribute store of `self` (constructors only)
 
@@ -396,11 +451,30 @@ class Ev:
     def name(self, e, env):
         if e.id in env:
             return env[e.id]
-        if e.id in self.m.funcs or e.id in self.m.imports or e.id in self.m.classes \
-                or e.id in BUILTINS:
+        if e.id in self.m.funcs or e.id in self.m.classes:
+            return N(e.id)
+        if e.id in self.m.imports:
+            mod_, orig = self.m.imports[e.id]
+            if orig is None:
+                return N(MODALIAS.get(mod_, mod_))
+            if (mod_, orig) in CANON:
+                return N(CANON[(mod_, orig)])
+            if e.id == orig and orig not in CANON.values():
+                return N(orig)
+            return N("%s:%s" % (mod_, orig))
+        if e.id in BUILTINS:
             return N(e.id)
         if e.id in self.m.consts:
-            return N(e.id)
+            # a module-level constant is its value (names are not semantic); constants the
+            # readers know by name (EPS: its definition is checked separately) stay symbols
+            if e.id in self.m.symbols:
+                return N(e.id)
+            _need(e.id not in self.resolving, "circular module-level constant " + e.id, e)
+            self.resolving.add(e.id)
+            try:
+                return self.expr(self.m.consts[e.id], {})
+            finally:
+                self.resolving.discard(e.id)
         raise Unsupported("unbound name %s at line %d" % (e.id, e.lineno))
 
     def expr(self, e, env):
@@ -412,7 +486,8 @@ class Ev:
         if isinstance(e, ast.Attribute):
             if isinstance(e.value, ast.Name) and e.value.id not in env \
                     and e.value.id in self.m.imports and self.m.imports[e.value.id][1] is None:
-                return N("%s.%s" % (e.value.id, e.attr))
+                mod_ = self.m.imports[e.value.id][0]
+                return N("%s.%s" % (MODALIAS.get(mod_, mod_), e.attr))
             v = self.expr(e.value, env)
             if v == P("self") and self.store is not None and e.attr in self.store:
                 return self.store[e.attr]
@@ -513,16 +588,32 @@ class Ev:
         if f[0] == "ATTR" and f[1] == P("self") and self.cls is not None:
             meth = self.find_method(f[2], self.mro)
             if meth is not None:
-                return self.apply(meth[1], [P("self")] + args, kw, e, owner=meth[0])
-        if f[0] == "N" and f[1] in self.m.funcs:
-            if f[1] in self.inline:
-                return self.apply(self.m.funcs[f[1]], args, kw, e)
-            if f[1] in self.opaque:
-                return call(f, (), self.bind_const(self.m.funcs[f[1]], args, kw, e).items())
+                first = [] if self.is_static(meth[1], e) else [P("self")]
+                return self.apply(meth[1], first + args, kw, e, owner=meth[0])
+        if f[0] == "ATTR" and f[1][0] == "N" and f[1][1] in self.m.classes:
+            # Class.helper(...): a static method, or a plain function called with explicit self
+            k = self.m.classes[f[1][1]]
+            meth = self.find_method(f[2], mro(self.m, k))
+            if meth is not None:
+                self.is_static(meth[1], e)
+                return self.apply(meth[1], args, kw, e, owner=meth[0])
+        if isinstance(e.func, ast.Name) and e.func.id not in env:
+            r = self.m.resolve(e.func.id)
+            if r is not None:
+                m2, fn = r
+                if fn.name in self.opaque:
+                    return call(N(fn.name), (), self.bind(fn, args, kw, e, module=m2).items())
+                return self.apply(fn, args, kw, e, module=m2)
         return call(f, args, kw)
 
+    @staticmethod
+    def is_static(fn, node):
+        decs = [d.id if isinstance(d, ast.Name) else None for d in fn.decorator_list]
+        _need(all(d == "staticmethod" for d in decs), "decorator on %s" % fn.name, node)
+        return bool(decs)
+
     # ---- calls of functions defined in the module
-    def bind(self, fn, args, kw, node):
+    def bind(self, fn, args, kw, node, module=None):
         names, defaults, kwarg = signature(fn)
         _need(len(args) <= len(names), "too many arguments for " + fn.name, node)
         b = dict(zip(names, args))
@@ -544,25 +635,28 @@ class Ev:
         for n in names:
             if n not in b:
                 _need(defaults[n] is not None, "%s() misses argument %s" % (fn.name, n), node)
-                b[n] = self.expr(defaults[n], {})       # defaults: module-level scope
+                saved, self.m = self.m, (module or self.m)
+                try:
+                    b[n] = self.expr(defaults[n], {})   # defaults: scope of the defining module
+                finally:
+                    self.m = saved
         if kwarg is not None:
             b[kwarg] = ("KW", tuple(sorted(extra.items())), splat)
         return b
 
-    def bind_const(self, fn, args, kw, node):
-        return self.bind(fn, args, kw, node)
-
-    def apply(self, fn, args, kw, node, owner=None):
+    def apply(self, fn, args, kw, node, owner=None, module=None):
         _need(self.depth < MAX_DEPTH, "call depth (recursion?) at " + fn.name, node)
-        env = self.bind(fn, args, kw, node)
-        saved = self.cls_owner
+        _need(not fn.decorator_list or owner is not None, "decorated function " + fn.name, node)
+        env = self.bind(fn, args, kw, node, module=module)
+        saved = (self.cls_owner, self.m)
         self.cls_owner = owner
+        self.m = module or self.m
         self.depth += 1
         try:
             return self.run(strip_doc(fn.body), env)
         finally:
             self.depth -= 1
-            self.cls_owner = saved
+            self.cls_owner, self.m = saved
 
     def find_method(self, name, classes):
         for c in classes:
